@@ -39,6 +39,19 @@ Theorem C01_div_rem_exact : forall i a b q r,
   a = b * q + r /\ Z.abs r < Z.abs b /\ (0 <= a -> 0 <= r) /\ (a <= 0 -> r <= 0).
 Proof. exact div_rem_exact. Qed.
 
+(* fuel is only a device: a result other than "out of fuel" does not depend on the amount of
+   fuel.  (Stated for every outcome: Value, Panic and Stuck.) *)
+Theorem C01_fuel_monotone : forall p f args n o,
+  eval_fn p f args n = o -> o <> OutOfFuel ->
+  forall m, (n <= m)%nat -> eval_fn p f args m = o.
+Proof. exact eval_fn_mono. Qed.
+
+(* the reference semantics is deterministic: two runs with enough fuel agree *)
+Theorem C01_ref_deterministic : forall p f args n m o1 o2,
+  eval_fn p f args n = o1 -> eval_fn p f args m = o2 ->
+  o1 <> OutOfFuel -> o2 <> OutOfFuel -> o1 = o2.
+Proof. exact eval_fn_deterministic. Qed.
+
 (* the strings are the corelib's: the felts as they appear in RunResultValue::Panic *)
 Example C01_example_felts :
   short "u8_add Overflow" = 0x75385f616464204f766572666c6f77
@@ -54,3 +67,5 @@ Print Assumptions C01_panic_data_exact_sub.
 Print Assumptions C01_panic_data_exact_mul.
 Print Assumptions C01_panic_data_exact_div.
 Print Assumptions C01_div_rem_exact.
+Print Assumptions C01_fuel_monotone.
+Print Assumptions C01_ref_deterministic.
